@@ -318,7 +318,7 @@ def run(case, replay=None):
                         shared_cfg["cv_eps"] = 0.0
             n_asked = len(infills)
             x_asked = np.array(infills.get("X"), dtype=float, copy=True)
-            manual = c.get("evalmode") == "manual" and c["algo"] not in ("ga", "ea-dex")
+            manual = c.get("evalmode") == "manual" and c["algo"] != "ga"
             if manual:
                 ev_ = prob.evaluate(np.array(infills.get("X"), dtype=float), return_as_dictionary=True)
                 for key_ in ("F", "G", "H"):
